@@ -2014,8 +2014,8 @@ class LimitSuite(HistSuite):
         geo = geo_of(self.cfg)
         cases = []
         limit = 2 ** (8 * geo[2]) - 1
-        if limit > 70000:
-            return cases
+        if limit > (70000 if tier == "thorough" else 1000):
+            return self.refcount_cases(geo)
         for extra in (0, 1, 5):
             ops = ["reset", "geo %d %d %d %d" % geo[:4], "root 0 0", "toarr 1 0"]
             n = limit + extra
@@ -2026,7 +2026,19 @@ class LimitSuite(HistSuite):
             ops += ["obs 0 1", "remi 1 0", "remi 1 0", "obs 0 1", "add 1 i 777", "add 1 sc 6162", "obs 0 1", "cleardoc 0", "obs 0", "root 0 0", "add 0 i 1", "obs 0", "cleardoc 0", "ledger"]
             for o in ops:
                 cases.append(Case(o, exp=None, limit=limit))
+        cases += self.refcount_cases(geo)
         return cases
+
+    def refcount_cases(self, geo):
+        """many values sharing one copied string (the reference counter is as wide as a slot id): the string must survive until its last user goes"""
+        n = getattr(self, "users", 300)
+        ops = ["reset", "geo %d %d %d %d" % geo[:4], "root 0 0", "toarr 1 0"]
+        for i in range(n):
+            ops.append("add 1 sc 7368617265642d737472696e67")
+            if i in (254, 255, 256, 257):
+                ops.append("obs 0")
+        ops += ["remi 1 0", "obs 0", "hser 0", "remi 1 0", "remi 1 1", "obs 0 1", "set 1 null -", "obs 0", "cleardoc 0", "ledger"]
+        return [Case(o, exp=None, limit=10 ** 9) for o in ops]
 
     def oracle(self, case, h):
         o = Suite.oracle(self, case, h)
